@@ -119,8 +119,16 @@ def regex_example(pattern, rng):
 class Generator:
     """instances built from the descriptors of a class (what the tables are built from)"""
 
-    def __init__(self, edge_strings=False):
+    def __init__(self, edge_strings=False, nonstandard=()):
         self.edge_strings = edge_strings
+        self.nonstandard = set(nonstandard)      # (qualified class, field): draw a value OUTSIDE the enumeration / pattern
+
+    def off_domain(self, cls, attr, d, rng, p=0.08):
+        """lenient (non-strict) enumeration / pattern descriptors accept any value with a logged error: such values are part of what
+        a structure can hold, and must survive the round trips like the standard ones"""
+        if getattr(d, 'strict', True):
+            return False
+        return (cls.__module__ + '.' + cls.__qualname__, attr) in self.nonstandard or rng.random() < p
 
     def string(self, rng):
         if self.edge_strings and rng.random() < 0.5:
@@ -130,14 +138,29 @@ class Generator:
     def prim(self, d, rng, cls, attr):
         from sarpy.io.xml import descriptors as D
         if isinstance(d, D.StringEnumDescriptor):
+            if self.off_domain(cls, attr, d, rng):
+                std = sorted(d.values)
+                cands = [v for v in ['MULTISTATIC', 'MONO32F', rng.choice(std).lower(), rng.choice(std) + '_X', 'Non standard value', 'OTHER:x']
+                         if v not in d.values]
+                if cands:
+                    return rng.choice(cands)
             return rng.choice(sorted(d.values))
         if isinstance(d, D.StringRegexDescriptor):
+            if self.off_domain(cls, attr, d, rng):
+                import re
+                cands = [v for v in ['no match here', '?', 'x y z', '12 34'] if not re.compile(d.pattern).fullmatch(v)]
+                if cands:
+                    return rng.choice(cands)
             return regex_example(d.pattern, rng)
         if isinstance(d, D.StringDescriptor):
             return self.string(rng)
         if isinstance(d, D.BooleanDescriptor):
             return rng.random() < 0.5
         if isinstance(d, D.IntegerEnumDescriptor):
+            if self.off_domain(cls, attr, d, rng):
+                cands = [v for v in [max(d.values) + 1, min(d.values) - 1, 77, -3] if v not in d.values]
+                if cands:
+                    return rng.choice(cands)
             return rng.choice(sorted(d.values))
         if isinstance(d, D.IntegerDescriptor):
             return rand_int(rng, d.bounds)
@@ -1170,7 +1193,10 @@ def find_triggers(x, path, out, depth=0):
 
 
 def xml_text_diffs(b1, b2):
-    """leaf-level differences of two documents: list of (tag path, text1, text2), or None when the element structure differs"""
+    """leaf-level differences of two documents: list of (tag path, text1, text2), or None when the element structure differs.
+    One structural difference is followed rather than given up on: a childless element of the first document whose text is
+    whitespace only and which has no counterpart in the second (text2 = None) - what a whitespace-only string value turns into
+    once get_node_value has stripped it to None and the field is no longer written."""
     try:
         r1, r2 = ElementTree.fromstring(b1), ElementTree.fromstring(b2)
     except ElementTree.ParseError:
@@ -1180,16 +1206,33 @@ def xml_text_diffs(b1, b2):
     def local(t):
         return t.rsplit('}', 1)[-1]
 
+    def ws_leaf(n):
+        return len(n) == 0 and n.text is not None and n.text != '' and n.text.strip() == ''
+
     def walk(n1, n2, path):
-        if local(n1.tag) != local(n2.tag) or len(n1) != len(n2) or list(n1.attrib) != list(n2.attrib):
+        if local(n1.tag) != local(n2.tag) or list(n1.attrib) != list(n2.attrib):
             return False
         p = path + (local(n1.tag),)
         for k in n1.attrib:
             if n1.attrib[k] != n2.attrib[k]:
                 out.append((p + ('@' + k,), n1.attrib[k], n2.attrib[k]))
-        if len(n1) == 0 and (n1.text or '') != (n2.text or ''):
+        if len(n1) == 0 and len(n2) == 0 and (n1.text or '') != (n2.text or ''):
             out.append((p, n1.text or '', n2.text or ''))
-        return all(walk(c1, c2, p) for c1, c2 in zip(n1, n2))
+        k1, k2 = list(n1), list(n2)
+        i2 = 0
+        for i1, c1 in enumerate(k1):
+            t = local(c1.tag)
+            more1 = sum(1 for c in k1[i1:] if local(c.tag) == t)
+            more2 = sum(1 for c in k2[i2:] if local(c.tag) == t)
+            if i2 < len(k2) and local(k2[i2].tag) == t and not (ws_leaf(c1) and more1 > more2):
+                if not walk(c1, k2[i2], p):
+                    return False
+                i2 += 1
+            elif ws_leaf(c1):
+                out.append((p + (t,), c1.text, None))      # the element disappeared
+            else:
+                return False
+        return i2 == len(k2)
     return out if walk(r1, r2, ()) else None
 
 
@@ -1361,8 +1404,18 @@ def run(tier):
     unit_tags = unit_vector_tags()
     lenient = dict(instances=0, instances_failing=0, examples={})
     lcases = [(q, 'lenient', rng.getrandbits(48)) for q in sorted(classes) for _ in range(1 if tier == 'quick' else 10)]
-    for which, (q, mode, seed) in [(0, c) for c in cases] + [(1, c) for c in extra] + [(2, c) for c in lcases]:
-        g = egen if which == 1 else gen
+    # every lenient (non-strict) enumeration / pattern field once (thorough: five times) with a value outside its domain
+    import inspect as _inspect
+    from sarpy.io.xml import descriptors as _D
+    ncases = []
+    for q in sorted(classes):
+        for f_ in classes[q]._fields:
+            d_ = _inspect.getattr_static(classes[q], f_, None)
+            if isinstance(d_, (_D.StringEnumDescriptor, _D.IntegerEnumDescriptor, _D.StringRegexDescriptor)) and not d_.strict:
+                ncases += [(q, ('only', f_), rng.getrandbits(48)) for _ in range(1 if tier == 'quick' else 5)]
+    stats['lenient_enumeration_fields'] = len({(q, m[1]) for q, m, _ in ncases})
+    for which, (q, mode, seed) in [(0, c) for c in cases] + [(1, c) for c in extra] + [(2, c) for c in lcases] + [(3, c) for c in ncases]:
+        g = egen if which == 1 else (Generator(nonstandard={(q, mode[1])}) if which == 3 else gen)
         c = classes[q]
         mname = mode if isinstance(mode, str) else mode[0]
         try:
@@ -1374,7 +1427,7 @@ def run(tier):
             continue
         if which != 2:
             stats['instances'] += 1
-            hk = mname + ('+edge-strings' if which else '')
+            hk = mname + ('+edge-strings' if which == 1 else '+value-outside-enumeration' if which == 3 else '')
             mode_hist[hk] = mode_hist.get(hk, 0) + 1
             classes_seen.add(q)
         is_root = q in roots
@@ -1400,8 +1453,8 @@ def run(tier):
         if f:
             find_triggers(x, c.__name__, trig)
         for ff in f:
-            ff.update(cls=q, mode=str(mode), seed=seed, edge_strings=bool(which))
-            ff['key'] = classify(ff, trig, unit_tags, bool(which))
+            ff.update(cls=q, mode=str(mode), seed=seed, edge_strings=which == 1, nonstandard=[q, mode[1]] if which == 3 else None)
+            ff['key'] = classify(ff, trig, unit_tags, which == 1)
             ra_, rb_ = ff.get('_raw', (None, None))
             uv = False
             if ff['kind'] == 'xml-stability' and isinstance(ra_, bytes):
@@ -1411,8 +1464,7 @@ def run(tier):
         for ff in f:
             # the re-serialisation differs because the re-parsed structure differs: when every field-level difference of this instance
             # (same variant) is an instance of a listed defect, the text difference is attributed to the same defects
-            # (also when the trigger walk attributed the text difference to a defect that is no longer open: the field-level causes decide)
-            if ff['kind'] in ('xml-stability', 'dict-stability') and (ff['key'] is None or not all(chk.known(k) is not None for k in ff['key'].split('+'))):
+            if ff['kind'] in ('xml-stability', 'dict-stability') and ff['key'] is None:
                 fam = 'xml' if ff['kind'] == 'xml-stability' else 'dict'
                 causes = [g for g in f if g['kind'] in (fam, fam + '-exception') and g.get('variant') == ff.get('variant')]
                 if causes and all(g['key'] for g in causes):
@@ -1432,7 +1484,7 @@ def run(tier):
         if len(samples) < 3 and present and 'family-urn' in xmls:
             samples.append(f'{q}: {xmls["family-urn"][:200]!r}')
         # ---- model correspondence for table-driven classes
-        if q in info['outside'] or which != 0:
+        if q in info['outside'] or which not in (0, 3):
             continue
         if f:
             # the instance already fails the oracle (reported above): its XML is not what the generic machinery alone would write
@@ -1704,7 +1756,7 @@ def replay(path):
     if mode.startswith('('):
         import ast
         mode = ast.literal_eval(mode)
-    g = Generator(edge_strings=bool(case.get('edge_strings')))
+    g = Generator(edge_strings=bool(case.get('edge_strings')), nonstandard=[tuple(case['nonstandard'])] if case.get('nonstandard') else ())
     c, x = run_case(g, info, q, mode, case['seed'])
     is_root = q in set(info['roots'])
     urn = family_urn(c)
